@@ -122,7 +122,7 @@ def broker_scenarios(ctx, n):
 def run(ctx):
     binary = ctx.go_test_build("plugin/input/kafka")
     thorough = ctx.tier == "thorough"
-    big = {"NRec": "8", "NProcs": "3"} if thorough else {"NRec": "6", "NProcs": "3"}
+    big = {"NRec": "9", "NProcs": "3"} if thorough else {"NRec": "6", "NProcs": "3"}
     res = ctx.tlc_expect_ok("KafkaInput", "KafkaInput_residual.cfg", timeout=5400, deadlock=False, overrides=big,
                             name="KafkaInput/per-partition-FIFO")
     if thorough:
@@ -149,7 +149,7 @@ def run(ctx):
     sm = ctx.tlc("Shutdown", "Shutdown_mut.cfg", timeout=900, deadlock=False, name="Shutdown/mutant output stops first")
     if sm.ok or sm.violated != "ShutdownSafe":
         raise vlib.Infra("spec mutant M_InputStopsBeforeOutput is not rejected by ShutdownSafe (violated=%s)" % sm.violated)
-    scs = scenarios(ctx, 900 if thorough else 240)
+    scs = scenarios(ctx, 2000 if thorough else 240)
     inp = os.path.join(ctx.scratch, "c10_in.json")
     out = os.path.join(ctx.scratch, "c10_trace.ndjson")
     json.dump({"scenarios": scs, "pack": cases}, open(inp, "w"))
